@@ -9,7 +9,11 @@ SPECS = [("", None), ("order_by='N'", ("N",)), ("order_by='-N'", ("-N",)), ("ord
          ("order_by='-manualSort'", ("-manualSort",))]
 KEYS = [("K=$Q", lambda row, q: row["K"] == q), ("K=$Q, S='a'", lambda row, q: row["K"] == q and row["S"] == 'a'),
         ("CL=CONTAINS($Q)", lambda row, q: isinstance(row["CL"], list) and q in row["CL"][1:]),
-        ("CL=CONTAINS($Q, match_empty='')", lambda row, q: (isinstance(row["CL"], list) and q in row["CL"][1:]) or (row["CL"] in (None, ['L']) and q == ''))]
+        ("CL=CONTAINS($Q, match_empty='')", lambda row, q: (isinstance(row["CL"], list) and q in row["CL"][1:]) or (row["CL"] in (None, ['L']) and q == '')),
+        # an Any-typed key column whose cells may hold unhashable (list) values: such a row matches no text probe
+        ("A=$Q", lambda row, q: row["A"] == q)]
+AKEY = 4
+AV = ["x", "y", ["L", "x"], 1]
 KV = ["x", "y", ""]
 SV = ["a", "b"]
 NV = [1, 2, None, "alt"]
@@ -17,7 +21,9 @@ CLV = [None, ["L", "x"], ["L", "y", "x"], ["L"], ["L", "x", "x"], "x"]
 EDITS = [None, ("UpdateRecord", "D", 1, {"K": "y"}), ("UpdateRecord", "D", 3, {"N": 0}), ("RemoveRecord", "D", 2),
          ("AddRecord", "D", None, {"K": "x", "S": "a", "N": 2, "CL": ["L", "x"]}), ("UpdateRecord", "D", 3, {"CL": ["L", "y"]}),
          ("UpdateRecord", "D", 2, {"manualSort": 0.5}), ("UpdateRecord", "D", 3, {"S": "c"}), ("UpdateRecord", "D", 1, {"K": "x"}),
-         ("BulkUpdateRecord", "D", [1, 2], {"N": [5, 5]})]
+         ("BulkUpdateRecord", "D", [1, 2], {"N": [5, 5]}),
+         ("UpdateRecord", "D", 3, {"A": ["L", "a", "x"]}), ("UpdateRecord", "D", 1, {"A": ["L", "x"]}), ("UpdateRecord", "D", 1, {"A": "x"}),
+         ("BulkUpdateRecord", "D", [1, 3], {"A": [["L", "x"], {"a": 1}]})]
 warm_up = B.warm_up
 _base = []
 
@@ -26,7 +32,8 @@ def base():
   if not _base:
     d = F.Doc(replica=False)
     d.apply(["AddTable", "D", [{"id": "K", "type": "Text", "isFormula": False}, {"id": "S", "type": "Text", "isFormula": False},
-                               {"id": "N", "type": "Int", "isFormula": False}, {"id": "CL", "type": "ChoiceList", "isFormula": False}]])
+                               {"id": "N", "type": "Int", "isFormula": False}, {"id": "CL", "type": "ChoiceList", "isFormula": False},
+                               {"id": "A", "type": "Any", "isFormula": False}]])
     cols = [{"id": "Q", "type": "Text", "isFormula": False}]
     for i, (k, _) in enumerate(KEYS):
       for j, (s, _) in enumerate(SPECS):
@@ -34,7 +41,7 @@ def base():
         cols.append({"id": "F%d_%d" % (i, j), "type": "Any", "isFormula": True, "formula": "list(D.lookupRecords(%s).id)" % args})
         cols.append({"id": "O%d_%d" % (i, j), "type": "Any", "isFormula": True, "formula": "D.lookupOne(%s).id" % args})
     d.apply(["AddTable", "P", cols])
-    d.apply(["BulkAddRecord", "D", [None] * 3, {"K": ["x", "y", "x"], "S": ["a", "a", "b"], "N": [1, 2, 3], "CL": [None, None, None]}])
+    d.apply(["BulkAddRecord", "D", [None] * 3, {"K": ["x", "y", "x"], "S": ["a", "a", "b"], "N": [1, 2, 3], "CL": [None, None, None], "A": ["x", "y", "x"]}])
     d.apply(["BulkAddRecord", "P", [None] * 3, {"Q": ["x", "y", ""]}])
     _base.append(F.Saved(d))
   return _base[0]
@@ -120,7 +127,8 @@ def make_body(shard):
     cells = {"K": [h.choice("k%d" % i, KV) for i in range(2)] + ["x"],
              "S": ["a", h.choice("s1", SV), h.choice("s2", SV)],
              "N": [h.choice("n%d" % i, NV) for i in range(2)] + [2],
-             "CL": [h.choice("cl%d" % i, CLV) for i in range(2)] + [["L", "x"]]}
+             "CL": ([h.choice("cl%d" % i, CLV) for i in range(2)] if ki != AKEY else [None, None]) + [["L", "x"]],
+             "A": ([h.choice("a%d" % i, AV) for i in range(2)] if ki == AKEY else ["x", "y"]) + ["x"]}
     msg, ok = judge(ki, cells, ei)
     w = {"key": ki, "cells": cells, "edit": ei}
     return {"nontrivial": ok, "violations": ([{"msg": msg, "witness": w}] if msg else []), "sample": w}
@@ -139,12 +147,12 @@ def replay(w):
 
 META = {
   "files": ["sandbox/grist/table.py", "sandbox/grist/lookup.py", "sandbox/grist/sort_key.py", "sandbox/grist/twowaymap.py", "sandbox/grist/functions/lookup.py"],
-  "oracle": "for each of 4 key shapes x 10 order specifications x 3 probe values: lookupRecords ids == naive filter of fetch_table + "
+  "oracle": "for each of 5 key shapes x 10 order specifications x 3 probe values: lookupRecords ids == naive filter of fetch_table + "
             "stable sort by the documented rule (order_by columns, '-' descending, then manualSort unless 'id' given, then row id; "
             "sort_by: its column then row id; mixed types by the documented fallback), lookupOne == first or 0; re-checked after an edit",
   "rule": "one evaluation = one (cell contents of 2 rows x 4 columns, key shape, edit) cube; each checks 30 lookups and 30 lookupOnes "
           "before and after the edit; non-trivial = setup applied",
-  "bounds": {"K": KV, "S": SV, "N": NV, "CL": CLV, "edits": [list(e) if e else None for e in EDITS], "key shapes": [k for k, _ in KEYS],
+  "bounds": {"A (Any column, may hold lists)": AV, "K": KV, "S": SV, "N": NV, "CL": CLV, "edits": [list(e) if e else None for e in EDITS], "key shapes": [k for k, _ in KEYS],
              "order specs": [s for s, _ in SPECS], "outside": "NaN keys, mutually incomparable sort values beyond None/number/str"},
 }
 
